@@ -315,31 +315,50 @@ func c10R2(c *Ctx) {
 			if len(args) == 0 {
 				continue
 			}
-			file := c10ReadBackFile(r, args[0])
+			// the path may be a parameter of an unexported helper: judged by what is passed in
+			file := ""
+			if os, okO := c09Origins(c.P, args[0], 2, nil); okO && len(os) > 0 {
+				for i, o := range os {
+					fo := c10ReadBackFile(r, o)
+					if i > 0 && fo != file {
+						fo = ""
+					}
+					file = fo
+					if file == "" {
+						break
+					}
+				}
+			}
 			if file == "" {
 				continue
 			}
 			n++
 			key := FnName(f) + "|" + CalleeName(call)
-			// creation: reached only when opening the same path reported "not exist"
-			var absent []Edge
-			for _, oc := range Calls(f, func(nm string) bool { return nm == "os.Open" || nm == "os.Stat" || nm == "os.Lstat" }) {
-				if !c09SameKey(oc.Common().Args[0], args[0]) {
-					continue
+			// creation: reached only when opening the same path reported "not exist" (here or before every call of the helper)
+			absentEdges := func(fn *ssa.Function, v c09Vals) []Edge {
+				if v["path"] == nil {
+					return nil
 				}
-				e := ErrOf(oc)
-				if e == nil {
-					continue
+				var absent []Edge
+				for _, oc := range Calls(fn, func(nm string) bool { return nm == "os.Open" || nm == "os.Stat" || nm == "os.Lstat" }) {
+					if !c09SameKey(oc.Common().Args[0], v["path"]) {
+						continue
+					}
+					e := ErrOf(oc)
+					if e == nil {
+						continue
+					}
+					al := Aliases(e)
+					te, _, _ := CallTests(fn, "os.IsNotExist", func(x *ssa.Call) bool { return al[x.Call.Args[0]] })
+					absent = append(absent, te...)
+					te2, _, _ := CallTests(fn, "errors.Is", func(x *ssa.Call) bool {
+						return al[x.Call.Args[0]] && strings.HasSuffix(sentinelName(x.Call.Args[1]), "ErrNotExist")
+					})
+					absent = append(absent, te2...)
 				}
-				al := Aliases(e)
-				te, _, _ := CallTests(f, "os.IsNotExist", func(x *ssa.Call) bool { return al[x.Call.Args[0]] })
-				absent = append(absent, te...)
-				te2, _, _ := CallTests(f, "errors.Is", func(x *ssa.Call) bool {
-					return al[x.Call.Args[0]] && strings.HasSuffix(sentinelName(x.Call.Args[1]), "ErrNotExist")
-				})
-				absent = append(absent, te2...)
+				return absent
 			}
-			if len(absent) > 0 && MustPass(call.(ssa.Instruction), newCut().Edges(absent...)) {
+			if c09GuardedUp(c.P, call.(ssa.Instruction), c09Vals{"path": args[0]}, absentEdges, 2) {
 				c.OK(R2, key, call.Pos(), file+" is written here only when it did not exist (creation, not replacement)")
 				continue
 			}
@@ -487,7 +506,7 @@ func c10R3StoragePush(c *Ctx, R3 string) {
 	errIdx := ErrResultIndex(ingest.Signature)
 	ok, n := true, 0
 	for _, a := range RetAtoms(ingest, errIdx) {
-		if ErrNilStatus(a.Val, 0) == NonNil {
+		if !c09MayBeNilAtom(ingest, a) {
 			continue
 		}
 		n++
